@@ -49,7 +49,7 @@ func chanCanon(ch *state.Channel) string {
 }
 
 func runC05(c *Ctx) {
-	sessions := c.Pick(20, 300)
+	sessions := c.Pick(50, 400)
 	if c.Arg("heavy", "") == "1" {
 		sessions = 600
 	}
